@@ -148,6 +148,7 @@ fn range_case(prefix: &[u8], seed: u64, lneg: bool, lo: &[u64], hneg: bool, hi: 
         let mut rng = StreamRng::new(prefix, seed);
         must_panic("gen_bigint_range with an empty or inverted range", || rng.gen_bigint_range(&bl, &bh))?;
         must_panic("Uniform::<BigInt>::new with an empty or inverted range", || Uniform::new(bl.clone(), bh.clone()))?;
+        must_panic("UniformBigInt::sample_single with an empty or inverted range", || { let mut rng = StreamRng::new(prefix, seed); <BigInt as rand::distributions::uniform::SampleUniform>::Sampler::sample_single(bl.clone(), bh.clone(), &mut rng) })?;
         if ord == std::cmp::Ordering::Greater {
             must_panic("Uniform::<BigInt>::new_inclusive with an inverted range", || Uniform::new_inclusive(bl.clone(), bh.clone()))?;
         }
@@ -192,10 +193,21 @@ fn range_case(prefix: &[u8], seed: u64, lneg: bool, lo: &[u64], hneg: bool, hi: 
     // ---- BigUint range on magnitudes ----
     let (ul, uh) = (rn(lo), rn(hi));
     let (bul, buh) = (bu(lo), bu(hi));
+    if ul.le(&uh) {
+        // inclusive constructor: [low, high], a single value when low == high
+        let widthi = uh.sub(&ul).add(&Nat::one());
+        let mut model = StreamRng::new(prefix, seed);
+        let (cand, _) = model.model_below(&widthi);
+        let mut rng = StreamRng::new(prefix, seed);
+        ctx(must_return("Uniform::new_inclusive", || Uniform::new_inclusive(bul.clone(), buh.clone()).sample(&mut rng)).and_then(|v| eq_bu(&v, &ul.add(&cand))), "Uniform::<BigUint>::new_inclusive")?;
+    } else {
+        must_panic("Uniform::<BigUint>::new_inclusive with an inverted range", || Uniform::new_inclusive(bul.clone(), buh.clone()))?;
+    }
     if !ul.lt(&uh) {
         let mut rng = StreamRng::new(prefix, seed);
         must_panic("gen_biguint_range with an empty or inverted range", || rng.gen_biguint_range(&bul, &buh))?;
         must_panic("Uniform::<BigUint>::new with an empty or inverted range", || Uniform::new(bul.clone(), buh.clone()))?;
+        must_panic("UniformBigUint::sample_single with an empty or inverted range", || { let mut rng = StreamRng::new(prefix, seed); <BigUint as rand::distributions::uniform::SampleUniform>::Sampler::sample_single(bul.clone(), buh.clone(), &mut rng) })?;
     } else {
         let width = uh.sub(&ul);
         let mut model = StreamRng::new(prefix, seed);
@@ -208,11 +220,6 @@ fn range_case(prefix: &[u8], seed: u64, lneg: bool, lo: &[u64], hneg: bool, hi: 
         ctx(must_return("Uniform::new", || Uniform::new(bul.clone(), buh.clone()).sample(&mut rng)).and_then(|v| eq_bu(&v, &want)), "Uniform::<BigUint>::new(low, high).sample")?;
         let mut rng = StreamRng::new(prefix, seed);
         ctx(must_return("sample_single", || <BigUint as rand::distributions::uniform::SampleUniform>::Sampler::sample_single(bul.clone(), buh.clone(), &mut rng)).and_then(|v| eq_bu(&v, &want)), "UniformBigUint::sample_single")?;
-        let widthi = width.add(&Nat::one());
-        let mut model = StreamRng::new(prefix, seed);
-        let (cand, _) = model.model_below(&widthi);
-        let mut rng = StreamRng::new(prefix, seed);
-        ctx(must_return("Uniform::new_inclusive", || Uniform::new_inclusive(bul.clone(), buh.clone()).sample(&mut rng)).and_then(|v| eq_bu(&v, &ul.add(&cand))), "Uniform::<BigUint>::new_inclusive")?;
     }
     // ---- gen_biguint_below(high magnitude) ----
     if uh.is_zero() {
